@@ -71,8 +71,8 @@ func vgenRouteTarget(r *rand.Rand) ExtendedCommunityInterface {
 }
 
 type vgenNLRICtx struct {
-	withdraw  bool // element of MP_UNREACH / withdrawn routes
-	single    bool // single-label stacks only
+	withdraw  bool   // element of MP_UNREACH / withdrawn routes
+	single    bool   // single-label stacks only
 	quirk     string // at most one rarely used value class per message (see vgenQuirks)
 	tags      *[]string
 	rareEVPN9 bool
